@@ -9,6 +9,7 @@ function satisfying the stated hypotheses and every tape satisfying the generato
 -/
 import KDVerif.Lemmas.Selection
 import KDVerif.Lemmas.SelectionBlocks
+import KDVerif.Lemmas.C03Extra
 
 namespace KDVerif.C03
 open KDVerif.Selection
@@ -804,5 +805,899 @@ theorem pyOr_zero_is_default (x : Option Nat) (y : Option Rat) : pyOrNat x 0 = x
     which is why the model (and the repaired code) use `default if x is None else x` there -/
 theorem pyOr_swallows_zero (n : Nat) : pyOrNat (some 0) n = n ∧ pyOrRat (some 0) 1 = 1 ∧ (some 0 : Option Nat).getD n = 0 := by
   simp [pyOrNat, pyOrRat]
+
+/-! # Additions closing the audit gaps (exact rounding, acceptance, unlabeled samples, seed contract)
+
+The theorems below instantiate the rounding parameters with the real rules over the rationals
+(`exactCutF p n = ⌊p·n⌋`, `exactCutC p n = ⌈p·n⌉`, `Model/C03Spec.lean`; the bridge to Mathlib's `⌊·⌋`/`⌈·⌉` notation is
+`Lemmas/C03FloorBridge.lean`), say when each constructor accepts, treat unlabeled (`-1`) and out-of-range labels
+explicitly, and state the "function of arguments and seed" clause. -/
+
+/-! ## exact rounding over the rationals (percent bounds that do not fall on integer boundaries) -/
+
+/-- **the real rounding rules, exactly**: for a percentage `p ≥ 0` treated as an exact rational and every size `n`,
+    `exactCutF p n` (`int(p * n)`) is the unique natural `k` with `k ≤ p·n < k+1`, i.e. `⌊p·n⌋`, and `exactCutC p n`
+    (`np.ceil(p * n)`) the unique natural `k` with `p·n ≤ k < p·n+1`, i.e. `⌈p·n⌉`. They differ by at most one and agree
+    exactly when `p·n` is an integer. NOTE: the real code evaluates `p * n` in floating point (float64; float32 in the
+    class-wise wrapper) and rounds that value; the model treats `p` as an exact rational, so these theorems describe the
+    code wherever the float product is rounded to the same integer. -/
+theorem exactCut_characterisation (p : Rat) (n : Nat) (hp : 0 ≤ p) :
+    ((exactCutF p n : Rat) ≤ p * n ∧ p * n < (exactCutF p n : Rat) + 1) ∧
+    (p * n ≤ (exactCutC p n : Rat) ∧ (exactCutC p n : Rat) < p * n + 1) ∧
+    (∀ k : Nat, (k : Rat) ≤ p * n → p * n < (k : Rat) + 1 → exactCutF p n = k) ∧
+    (∀ k : Nat, p * n ≤ (k : Rat) → (k : Rat) < p * n + 1 → exactCutC p n = k) ∧
+    exactCutF p n ≤ exactCutC p n ∧ exactCutC p n ≤ exactCutF p n + 1 ∧
+    (exactCutF p n = exactCutC p n ↔ ∃ k : Nat, p * n = (k : Rat)) :=
+  ⟨⟨c03x_cutF_le p n hp, c03x_lt_cutF_add_one p n⟩, ⟨c03x_le_cutC p n, c03x_cutC_lt p n hp⟩,
+    fun k => c03x_cutF_unique p n k, fun k => c03x_cutC_unique p n k,
+    c03x_cutF_le_cutC p n, c03x_cutC_le_cutF_succ p n, c03x_cutF_eq_cutC_iff p n hp⟩
+
+/-- **the hypotheses of `percentFilter_partition` / `percentFilter_chain` / `subsetPercent_partition` /
+    `classwiseSubset_percent_partition` hold for the real rounding rules**, for every `n` and all `p ≤ q` in `ℚ`:
+    `cut 0 n = 0`, `cut 1 n = n`, `cut p n ≤ n` for `p ≤ 1`, and both cuts are monotone in `p` -/
+theorem exactCut_hypotheses (n : Nat) :
+    exactCutF 0 n = 0 ∧ exactCutC 0 n = 0 ∧ exactCutF 1 n = n ∧ exactCutC 1 n = n ∧
+    (∀ p : Rat, p ≤ 1 → exactCutF p n ≤ n) ∧ (∀ p : Rat, p ≤ 1 → exactCutC p n ≤ n) ∧
+    (∀ p q : Rat, p ≤ q → exactCutF p n ≤ exactCutF q n) ∧ (∀ p q : Rat, p ≤ q → exactCutC p n ≤ exactCutC q n) :=
+  ⟨c03x_cutF_zero n, c03x_cutC_zero n, c03x_cutF_one n, c03x_cutC_one n,
+    fun p => c03x_cutF_le_n p n, fun p => c03x_cutC_le_n p n,
+    fun p q => c03x_cutF_mono p q n, fun p q => c03x_cutC_mono p q n⟩
+
+example : exactCutF (1/3) 7 = 2 ∧ exactCutC (1/3) 7 = 3 ∧ exactCutF (2/7) 7 = 2 ∧ exactCutC (2/7) 7 = 2 := by decide +kernel
+
+/-! ## percent filter, exact rounding: acceptance, exact interval, partition -/
+
+/-- **acceptance of `PercentFilterWrapper`** (any rounding functions): the constructor accepts iff both bounds
+    (`None` ↦ 0 resp. 1) lie in `[0,1]`; otherwise it raises the `AssertionError`. In particular `from > to` is
+    *accepted* (and yields the empty selection, see `percentFilter_exact_interval`). -/
+theorem percentFilter_accepts_iff (cutF cutC : Rat → Nat → Nat) (n : Nat) (fp tp : Option Rat) (cf ct : Bool) :
+    ((∃ res, percentFilter cutF cutC n fp tp cf ct = .ok res) ↔
+      (0 ≤ fp.getD 0 ∧ fp.getD 0 ≤ 1 ∧ 0 ≤ tp.getD 1 ∧ tp.getD 1 ≤ 1)) ∧
+    (¬ (0 ≤ fp.getD 0 ∧ fp.getD 0 ≤ 1 ∧ 0 ≤ tp.getD 1 ∧ tp.getD 1 ≤ 1) →
+      percentFilter cutF cutC n fp tp cf ct = .error .assertion) := by
+  unfold percentFilter
+  simp only [pyOrRat_zero]
+  by_cases hg : 0 ≤ fp.getD 0 ∧ fp.getD 0 ≤ 1 ∧ 0 ≤ tp.getD 1 ∧ tp.getD 1 ≤ 1
+  · rw [if_pos hg]
+    exact ⟨⟨fun _ => hg, fun _ => ⟨_, rfl⟩⟩, fun h => absurd hg h⟩
+  · rw [if_neg hg]
+    refine ⟨⟨?_, fun h => absurd h hg⟩, fun _ => rfl⟩
+    rintro ⟨res, h⟩; cases h
+
+/-- **the exact interval of an accepted percent filter**, real rounding rules, every `n`, all bounds in `[0,1] ∩ ℚ`
+    (what the constructor's asserts guarantee), all four rounding-mode combinations: the selection is the block
+    `a, a+1, …, b-1` with `a = cut(from, n) ≤ n`, `b = cut(to, n) ≤ n` (empty when `b ≤ a`), and sample `i` is selected iff
+    * lower bound, floor mode: `from·n < i+1`;  ceil mode: `from·n ≤ i`,
+    * upper bound, floor mode: `i+1 ≤ to·n`;   ceil mode: `i < to·n`
+    — stated over the rationals, so bounds that do not fall on integer boundaries are covered. -/
+theorem percentFilter_exact_interval (n : Nat) (fp tp : Option Rat) (cf ct : Bool)
+    (hf : 0 ≤ fp.getD 0 ∧ fp.getD 0 ≤ 1) (ht : 0 ≤ tp.getD 1 ∧ tp.getD 1 ≤ 1) :
+    ∃ a b, a = (if cf then exactCutC else exactCutF) (fp.getD 0) n ∧
+      b = (if ct then exactCutC else exactCutF) (tp.getD 1) n ∧ a ≤ n ∧ b ≤ n ∧
+      percentFilter exactCutF exactCutC n fp tp cf ct = .ok (List.range' a (b - a)) ∧
+      ∀ i : Nat, i ∈ List.range' a (b - a) ↔
+        (if cf then fp.getD 0 * n ≤ (i : Rat) else fp.getD 0 * n < (i : Rat) + 1) ∧
+        (if ct then (i : Rat) < tp.getD 1 * n else (i : Rat) + 1 ≤ tp.getD 1 * n) := by
+  refine ⟨_, _, rfl, rfl, ?_, ?_, ?_, ?_⟩
+  · cases cf
+    · exact c03x_cutF_le_n _ n hf.2
+    · exact c03x_cutC_le_n _ n hf.2
+  · cases ct
+    · exact c03x_cutF_le_n _ n ht.2
+    · exact c03x_cutC_le_n _ n ht.2
+  · unfold percentFilter
+    simp only [pyOrRat_zero]
+    rw [if_pos ⟨hf.1, hf.2, ht.1, ht.2⟩]
+    rfl
+  · intro i
+    rw [show List.range' ((if cf then exactCutC else exactCutF) (fp.getD 0) n)
+        ((if ct then exactCutC else exactCutF) (tp.getD 1) n - (if cf then exactCutC else exactCutF) (fp.getD 0) n)
+        = arange ((if cf then exactCutC else exactCutF) (fp.getD 0) n) ((if ct then exactCutC else exactCutF) (tp.getD 1) n)
+        from rfl, mem_arange]
+    cases cf <;> cases ct <;>
+      simp only [Bool.false_eq_true, if_false, if_true, c03x_cutF_le_iff, c03x_lt_cutF_iff, c03x_cutC_le_iff,
+        c03x_lt_cutC_iff]
+
+/-- non-vacuity and what it evaluates to: 7 samples, `[1/3, 5/6]`: floor/floor keeps 2..4 (⌊7/3⌋ = 2, ⌊35/6⌋ = 5),
+    ceil/ceil keeps 3..5; a reversed range is accepted and empty -/
+example : percentFilter exactCutF exactCutC 7 (some (1/3)) (some (5/6)) false false = .ok [2, 3, 4] ∧
+    percentFilter exactCutF exactCutC 7 (some (1/3)) (some (5/6)) true true = .ok [3, 4, 5] ∧
+    percentFilter exactCutF exactCutC 7 (some (5/6)) (some (1/3)) false false = .ok [] ∧
+    percentFilter exactCutF exactCutC 7 (some (3/2)) none false false = .error .assertion := by decide +kernel
+
+/-- **complementary percent ranges partition the dataset — real rounding rules**: for every size `n`, every
+    `p ∈ [0,1] ∩ ℚ` (incl. 0, 1 and every `p` with `p·n` not an integer) and both rounding modes `m` at the shared bound
+    (the outer modes `m'`, `m''` are arbitrary): "up to p" followed by "from p" is exactly `0, 1, …, n-1`; the split
+    point is `⌊p·n⌋` resp. `⌈p·n⌉`. No hypothesis on the rounding is left. -/
+theorem percentFilter_exact_partition (n : Nat) (p : Rat) (m m' m'' : Bool) (hp0 : 0 ≤ p) (hp1 : p ≤ 1)
+    (fa tb : Option Rat) (hfa : fa = none ∨ fa = some 0) (htb : tb = none ∨ tb = some 1) :
+    ∃ A B, percentFilter exactCutF exactCutC n fa (some p) m' m = .ok A ∧
+           percentFilter exactCutF exactCutC n (some p) tb m m'' = .ok B ∧ A ++ B = List.range n ∧
+           A = List.range ((if m then exactCutC else exactCutF) p n) ∧
+           B = List.range' ((if m then exactCutC else exactCutF) p n) (n - (if m then exactCutC else exactCutF) p n) := by
+  have hle : (if m then exactCutC else exactCutF) p n ≤ n := by
+    cases m
+    · exact c03x_cutF_le_n p n hp1
+    · exact c03x_cutC_le_n p n hp1
+  obtain ⟨A, B, hA, hB, hAB⟩ := percentFilter_partition exactCutF exactCutC n p m m' m'' hp0 hp1
+    (c03x_cutF_zero n) (c03x_cutC_zero n) (c03x_cutF_one n) (c03x_cutC_one n) hle fa tb hfa htb
+  refine ⟨A, B, hA, hB, hAB, ?_, ?_⟩
+  · have hfa' : fa.getD 0 = 0 := by rcases hfa with h | h <;> simp [h]
+    obtain ⟨a, b, ha, hb, _, _, hok, _⟩ := percentFilter_exact_interval n fa (some p) m' m
+      (by rw [hfa']; exact ⟨Rat.le_refl, by decide⟩) ⟨hp0, hp1⟩
+    rw [hok] at hA
+    injection hA with hA
+    have ha0 : a = 0 := by
+      rw [ha, hfa']; cases m'
+      · exact c03x_cutF_zero n
+      · exact c03x_cutC_zero n
+    rw [← hA, ha0, hb, Option.getD_some, Nat.sub_zero, List.range_eq_range']
+  · have htb' : tb.getD 1 = 1 := by rcases htb with h | h <;> simp [h]
+    obtain ⟨a, b, ha, hb, _, _, hok, _⟩ := percentFilter_exact_interval n (some p) tb m m''
+      ⟨hp0, hp1⟩ (by rw [htb']; exact ⟨by decide, Rat.le_refl⟩)
+    rw [hok] at hB
+    injection hB with hB
+    have hbn : b = n := by
+      rw [hb, htb']; cases m''
+      · exact c03x_cutF_one n
+      · exact c03x_cutC_one n
+    rw [← hB, ha, hbn, Option.getD_some]
+
+/-- `n = 7`, `p = 1/3` (7/3 is not an integer): floor mode splits at 2, ceil mode at 3; each pair covers `0..6` -/
+example : percentFilter exactCutF exactCutC 7 none (some (1/3)) false false = .ok [0, 1] ∧
+    percentFilter exactCutF exactCutC 7 (some (1/3)) none false false = .ok [2, 3, 4, 5, 6] ∧
+    percentFilter exactCutF exactCutC 7 none (some (1/3)) false true = .ok [0, 1, 2] ∧
+    percentFilter exactCutF exactCutC 7 (some (1/3)) none true false = .ok [3, 4, 5, 6] := by decide +kernel
+
+/-- the rounding mode at the shared bound must be the same on both sides: with floor on the "up to p" side and ceil
+    on the "from p" side the sample `⌊p·n⌋` is lost whenever `p·n` is not an integer (here sample 2 of 7, `p = 1/3`) -/
+example : percentFilter exactCutF exactCutC 7 none (some (1/3)) false false = .ok [0, 1] ∧
+    percentFilter exactCutF exactCutC 7 (some (1/3)) none true false = .ok [3, 4, 5, 6] := by decide +kernel
+
+/-- **adjacent percent ranges chain — real rounding rules**: for all `0 ≤ p ≤ q ≤ r ≤ 1` in `ℚ`, every `n` and either
+    rounding mode, `[p,q]` followed by `[q,r]` is `[p,r]` (nothing lost or doubled at the shared bound) -/
+theorem percentFilter_exact_chain (n : Nat) (p q r : Rat) (m : Bool)
+    (hp0 : 0 ≤ p) (hpq : p ≤ q) (hqr : q ≤ r) (hr1 : r ≤ 1) :
+    ∃ A B C, percentFilter exactCutF exactCutC n (some p) (some q) m m = .ok A ∧
+             percentFilter exactCutF exactCutC n (some q) (some r) m m = .ok B ∧
+             percentFilter exactCutF exactCutC n (some p) (some r) m m = .ok C ∧ A ++ B = C :=
+  percentFilter_chain exactCutF exactCutC n p q r m hp0 hpq hqr hr1 (by
+    intro x y hxy
+    cases m
+    · exact c03x_cutF_mono x y n hxy
+    · exact c03x_cutC_mono x y n hxy)
+
+example : percentFilter exactCutF exactCutC 10 (some (1/7)) (some (1/2)) true true = .ok [2, 3, 4] ∧
+    percentFilter exactCutF exactCutC 10 (some (1/2)) (some (6/7)) true true = .ok [5, 6, 7, 8] ∧
+    percentFilter exactCutF exactCutC 10 (some (1/7)) (some (6/7)) true true = .ok [2, 3, 4, 5, 6, 7, 8] := by
+  decide +kernel
+
+/-! ## subset wrapper: acceptance and exact intervals -/
+
+/-- **acceptance of `SubsetWrapper(start_index=, end_index=)`**: with at least one index bound given and no percent
+    bound, the constructor accepts iff `start ≤ min(end, n)` (`None` ↦ 0 resp. `n`); then the selection is exactly
+    `start, …, min(end, n)-1` and both interval ends are `≤ n`; otherwise it raises the `AssertionError` -/
+theorem subsetIndex_accepts_iff (cutF : Rat → Nat → Nat) (n : Nat) (si ei : Option Nat)
+    (hgiven : (si.isSome || ei.isSome) = true) :
+    (si.getD 0 ≤ min (ei.getD n) n →
+      subsetRange cutF n si ei none none = .ok (List.range' (si.getD 0) (min (ei.getD n) n - si.getD 0)) ∧
+      si.getD 0 ≤ n ∧ min (ei.getD n) n ≤ n) ∧
+    (¬ si.getD 0 ≤ min (ei.getD n) n → subsetRange cutF n si ei none none = .error .assertion) := by
+  unfold subsetRange
+  simp only [hgiven, if_true, Option.isSome_none, Bool.or_self, Bool.false_eq_true, if_false, pyOrNat_zero]
+  constructor
+  · intro h
+    rw [if_pos h]
+    exact ⟨rfl, by omega, by omega⟩
+  · intro h
+    rw [if_neg h]
+
+/-- the argument checks of `SubsetWrapper` (`indices=None`): index and percent bounds together raise the
+    `AssertionError`, no bound at all raises `RuntimeError` -/
+theorem subsetRange_rejects (cutF : Rat → Nat → Nat) (n : Nat) (si ei : Option Nat) (sp ep : Option Rat) :
+    ((si.isSome || ei.isSome) = true → (sp.isSome || ep.isSome) = true →
+      subsetRange cutF n si ei sp ep = .error .assertion) ∧
+    (si = none → ei = none → sp = none → ep = none → subsetRange cutF n si ei sp ep = .error .runtime) := by
+  constructor
+  · intro h1 h2
+    unfold subsetRange
+    simp only [h1, h2, if_true]
+  · intro h1 h2 h3 h4
+    subst h1 h2 h3 h4
+    rfl
+
+/-- **acceptance and exact interval of `SubsetWrapper(start_percent=, end_percent=)`, real rounding rule**
+    (`int(p * n)` = `⌊p·n⌋`, percentages exact rationals): with at least one percent bound given and no index bound,
+    the constructor accepts iff both given bounds lie in `[0,1]` and `start ≤ end` (`None` ↦ 0 resp. 1); then the
+    selection is the block `a, …, b-1` with `a = ⌊start·n⌋ ≤ b = ⌊end·n⌋ ≤ n`, and sample `i` is selected iff
+    `start·n < i+1 ≤ end·n`; otherwise it raises the `AssertionError` -/
+theorem subsetPercent_exact_spec (n : Nat) (sp ep : Option Rat) (hgiven : (sp.isSome || ep.isSome) = true) :
+    ((∀ p, sp = some p → 0 ≤ p ∧ p ≤ 1) → (∀ p, ep = some p → 0 ≤ p ∧ p ≤ 1) → sp.getD 0 ≤ ep.getD 1 →
+      ∃ a b, a = exactCutF (sp.getD 0) n ∧ b = exactCutF (ep.getD 1) n ∧ a ≤ b ∧ b ≤ n ∧
+        subsetRange exactCutF n none none sp ep = .ok (List.range' a (b - a)) ∧
+        ∀ i : Nat, i ∈ List.range' a (b - a) ↔ sp.getD 0 * n < (i : Rat) + 1 ∧ (i : Rat) + 1 ≤ ep.getD 1 * n) ∧
+    (¬ ((∀ p, sp = some p → 0 ≤ p ∧ p ≤ 1) ∧ (∀ p, ep = some p → 0 ≤ p ∧ p ≤ 1) ∧ sp.getD 0 ≤ ep.getD 1) →
+      subsetRange exactCutF n none none sp ep = .error .assertion) := by
+  have hok : ∀ x : Option Rat, pctOk x = true ↔ ∀ p, x = some p → 0 ≤ p ∧ p ≤ 1 := by
+    intro x
+    cases x with
+    | none => simp [pctOk]
+    | some v => simp [pctOk]
+  have hep1 : (∀ p, ep = some p → 0 ≤ p ∧ p ≤ 1) → ep.getD 1 ≤ 1 := by
+    intro h
+    cases ep with
+    | none => exact Rat.le_refl
+    | some v => exact (h v rfl).2
+  unfold subsetRange
+  simp only [Option.isSome_none, Bool.or_self, Bool.false_eq_true, if_false, hgiven, if_true, pyOrRat_zero]
+  constructor
+  · intro hs he hle
+    rw [if_pos (by rw [Bool.and_eq_true]; exact ⟨(hok sp).2 hs, (hok ep).2 he⟩), if_pos hle]
+    refine ⟨_, _, rfl, rfl, c03x_cutF_mono _ _ n hle, c03x_cutF_le_n _ n (hep1 he), rfl, ?_⟩
+    intro i
+    rw [show List.range' (exactCutF (sp.getD 0) n) (exactCutF (ep.getD 1) n - exactCutF (sp.getD 0) n)
+        = arange (exactCutF (sp.getD 0) n) (exactCutF (ep.getD 1) n) from rfl, mem_arange,
+      c03x_cutF_le_iff, c03x_lt_cutF_iff]
+  · intro h
+    by_cases hp : (pctOk sp && pctOk ep) = true
+    · rw [if_pos hp]
+      rw [Bool.and_eq_true] at hp
+      rw [if_neg]
+      intro hle
+      exact h ⟨(hok sp).1 hp.1, (hok ep).1 hp.2, hle⟩
+    · rw [if_neg hp]
+
+example : subsetRange exactCutF 7 none none (some (1/3)) (some (5/6)) = .ok [2, 3, 4] ∧
+    subsetRange exactCutF 7 none none (some (5/6)) (some (1/3)) = .error .assertion ∧
+    subsetRange exactCutF 7 none none none (some (3/2)) = .error .assertion ∧
+    subsetRange exactCutF 7 (some 2) (some 100) none none = .ok [2, 3, 4, 5, 6] ∧
+    subsetRange exactCutF 7 (some 8) none none none = .error .assertion := by decide +kernel
+
+/-- **complementary percent ranges of the subset wrapper partition the dataset — real rounding rule**, every `n`, every
+    `p ∈ [0,1] ∩ ℚ` incl. 0, 1 and every `p` with `p·n` not an integer; the split point is `⌊p·n⌋` -/
+theorem subsetPercent_exact_partition (n : Nat) (p : Rat) (hp0 : 0 ≤ p) (hp1 : p ≤ 1)
+    (sa eb : Option Rat) (hsa : sa = none ∨ sa = some 0) (heb : eb = none ∨ eb = some 1) :
+    ∃ A B, subsetRange exactCutF n none none sa (some p) = .ok A ∧
+           subsetRange exactCutF n none none (some p) eb = .ok B ∧ A ++ B = List.range n :=
+  subsetPercent_partition exactCutF n p hp0 hp1 (c03x_cutF_zero n) (c03x_cutF_one n) (c03x_cutF_le_n p n hp1) sa eb hsa heb
+
+example : subsetRange exactCutF 7 none none none (some (1/3)) = .ok [0, 1] ∧
+    subsetRange exactCutF 7 none none (some (1/3)) none = .ok [2, 3, 4, 5, 6] := by decide +kernel
+
+/-! ## oversampling with unlabeled samples (label -1) -/
+
+/-- **mode "exact", unlabeled samples treated explicitly.** What the real code does with label `-1`:
+    `get_class_counts` drops the unlabeled samples before counting, and mode "exact" rebuilds the index list from the
+    per-class loops `for i in range(len(class_counts))` only — so **unlabeled samples are dropped from the selection**
+    ("keeps every sample" holds for the *labeled* samples only; mode "multiply" keeps the unlabeled ones once, see
+    `oversampleMultiply_spec`). For every non-empty dataset whose labels are `-1` or lie in `[0, countsLen n_classes)`
+    (`get_class_counts`' assert; `countsLen 1 = 2`) with at least one labeled sample, any classes absent:
+    construction terminates (fuel = dataset size suffices), `mx` is the largest *labeled* class count, the selected
+    samples are exactly the labeled ones (every labeled sample kept, no unlabeled, no foreign index), every present
+    class has exactly `mx` entries, and the entries of a class are its samples round-robin in original order. -/
+theorem oversampleExact_unlabeled_spec (fuel : Nat) (cls : List Int) (nc : Nat)
+    (hdom : ∀ c ∈ cls, c = -1 ∨ (0 ≤ c ∧ c < (countsLen nc : Int))) (hlab : ∃ c ∈ cls, c ≠ -1)
+    (hfuel : cls.length ≤ fuel) :
+    ∃ res mx, oversample fuel cls nc .exact = .ok res ∧ 0 < mx ∧
+      (∀ c : Int, c ≠ -1 → cls.count c ≤ mx) ∧ (∃ c : Nat, cls.count (c : Int) = mx) ∧
+      (∀ i, i ∈ res ↔ ∃ c, cls[i]? = some c ∧ c ≠ -1) ∧
+      res.countP (fun i => cls[i]? == some (-1)) = 0 ∧
+      (∀ c : Nat, 0 < cls.count (c : Int) → res.countP (fun i => cls[i]? == some (c : Int)) = mx) ∧
+      (∀ c : Nat, 0 < cls.count (c : Int) → ∀ k, k < mx →
+        (res.filter (fun i => cls[i]? == some (c : Int)))[k]? = (whereEq cls (c : Int))[k % cls.count (c : Int)]?) := by
+  have hc := classCounts_of_dom cls nc hdom
+  generalize hcounts : (List.range (countsLen nc)).map (fun (i : Nat) => cls.count (i : Int)) = counts at hc
+  obtain ⟨hl, hget, _⟩ := classCounts_ok cls nc counts hc
+  obtain ⟨c1, hc1, hc1ne⟩ := hlab
+  have hlen0 : cls.length ≠ 0 := by
+    intro h0
+    rw [List.eq_nil_of_length_eq_zero h0] at hc1
+    cases hc1
+  have hc1dom : 0 ≤ c1 ∧ c1 < (countsLen nc : Int) := by
+    rcases hdom c1 hc1 with h | h
+    · exact absurd h hc1ne
+    · exact h
+  have hlen : counts.length ≠ 0 := by omega
+  obtain ⟨hmax, c0, hc0lt, hc0⟩ := mx_spec cls nc counts hc hlen
+  have hmxpos : counts.foldl max 0 ≠ 0 := by
+    have := hmax c1 hc1ne
+    have := List.count_pos_iff.2 hc1
+    omega
+  have hmxle : counts.foldl max 0 ≤ fuel := by
+    rw [← hc0]
+    exact Nat.le_trans (List.count_le_length) hfuel
+  have hgo := exactGo_eq fuel cls counts (counts.foldl max 0) hmxle (List.range counts.length)
+    (fun i hi => hget i (by rw [← hl]; exact List.mem_range.1 hi))
+  have hg : ∀ a, ∀ x ∈ exactBlock cls (counts.foldl max 0) a (counts.getD a 0), cls[x]? = some (a : Int) := by
+    intro a x hx
+    unfold exactBlock at hx
+    split at hx
+    · cases hx
+    · exact (mem_whereEq cls a x).1 (mem_cycTake _ _ _ hx)
+  have hfilter : ∀ c : Nat, 0 < cls.count (c : Int) →
+      ((List.range counts.length).flatMap (fun i => exactBlock cls (counts.foldl max 0) i (counts.getD i 0))).filter
+        (fun i => cls[i]? == some (c : Int)) = cycTake (whereEq cls (c : Int)) (counts.foldl max 0) := by
+    intro c hpos
+    have hmem : (c : Int) ∈ cls := List.count_pos_iff.1 hpos
+    have hclt : c < counts.length := by
+      rcases hdom _ hmem with h | h <;> omega
+    rw [filter_blocks cls _ hg c _ List.nodup_range, if_pos (List.mem_range.2 hclt)]
+    unfold exactBlock
+    rw [hget c (by omega), if_neg (by omega)]
+  refine ⟨(List.range counts.length).flatMap (fun i => exactBlock cls (counts.foldl max 0) i (counts.getD i 0)),
+    counts.foldl max 0, ?_, by omega, hmax, ⟨c0, hc0⟩, ?_, ?_, ?_, ?_⟩
+  · unfold oversample
+    simp only [hlen0, if_false, hc, hlen, hmxpos]
+    exact hgo
+  · intro i
+    constructor
+    · intro hi
+      rw [List.mem_flatMap] at hi
+      obtain ⟨a, _, hx⟩ := hi
+      exact ⟨(a : Int), hg a i hx, by omega⟩
+    · rintro ⟨c, hci, hcne⟩
+      have hcm : c ∈ cls := List.mem_of_getElem? hci
+      have hcd : 0 ≤ c ∧ c < (countsLen nc : Int) := by
+        rcases hdom c hcm with h | h
+        · exact absurd h hcne
+        · exact h
+      rw [List.mem_flatMap]
+      have hcast : ((c.toNat : Nat) : Int) = c := Int.toNat_of_nonneg hcd.1
+      have hiw : i ∈ whereEq cls ((c.toNat : Nat) : Int) := by
+        rw [mem_whereEq, hcast]; exact hci
+      have hcnt : counts.getD c.toNat 0 = cls.count ((c.toNat : Nat) : Int) := hget _ (by omega)
+      have hpos : 0 < (whereEq cls ((c.toNat : Nat) : Int)).length := List.length_pos_of_mem hiw
+      refine ⟨c.toNat, List.mem_range.2 (by omega), ?_⟩
+      unfold exactBlock
+      rw [if_neg (by rw [hcnt, ← length_whereEq]; omega)]
+      have hpre := prefix_cycTake (whereEq cls ((c.toNat : Nat) : Int)) (counts.foldl max 0) hpos
+        (by rw [length_whereEq]; exact hmax _ (by omega))
+      exact hpre.subset hiw
+  · rw [List.countP_eq_length_filter, filter_blocks_none cls _ hg (-1) _ (fun a _ => by omega)]
+    rfl
+  · intro c hpos
+    rw [List.countP_eq_length_filter, hfilter c hpos]
+    exact length_cycTake _ _ (by rw [length_whereEq]; exact hpos)
+  · intro c hpos k hk
+    rw [hfilter c hpos, getElem?_cycTake _ (by rw [length_whereEq]; exact hpos) _ k hk, length_whereEq]
+
+/-- non-vacuity and what it evaluates to: two unlabeled samples (positions 1 and 5) are dropped, class 1 is absent,
+    classes 0 and 2 both reach `mx = 3` -/
+example : oversample 7 [0, -1, 2, 0, 2, -1, 0] 3 .exact = .ok [0, 3, 6, 2, 4, 2] := by decide
+example : (∀ c ∈ ([0, -1, 2, 0, 2, -1, 0] : List Int), c = -1 ∨ (0 ≤ c ∧ c < ((countsLen 3 : Nat) : Int))) ∧
+    (∃ c ∈ ([0, -1, 2, 0, 2, -1, 0] : List Int), c ≠ -1) ∧ ([0, -1, 2, 0, 2, -1, 0] : List Int).length ≤ 7 := by decide
+
+/-- **every other input of `OversamplingWrapper` is rejected, and how** (both modes unless said otherwise):
+    an empty dataset raises `IndexError` (float `torch.tensor([])` used as index); a label other than `-1` outside
+    `[0, countsLen n_classes)` raises the `AssertionError` of `get_class_counts`; a dataset of unlabeled samples only
+    raises `RuntimeError` for `n_classes = 0` (`torch.max` of an empty tensor) and, in mode "exact" with
+    `n_classes ≠ 0`, `ValueError` (`torch.concat([])`); an unknown mode raises `NotImplementedError`. Together with
+    `oversampleExact_unlabeled_spec` / `oversampleMultiply_accepts` this decides acceptance for every input. -/
+theorem oversample_rejects (fuel : Nat) (cls : List Int) (nc : Nat) (mode : OsMode) :
+    (cls = [] → oversample fuel cls nc mode = .error .index) ∧
+    (cls ≠ [] → (∃ c ∈ cls, c ≠ -1 ∧ ¬ (0 ≤ c ∧ c < (countsLen nc : Int))) →
+      oversample fuel cls nc mode = .error .assertion) ∧
+    (cls ≠ [] → (∀ c ∈ cls, c = -1) → nc = 0 → oversample fuel cls nc mode = .error .runtime) ∧
+    (cls ≠ [] → (∀ c ∈ cls, c = -1) → nc ≠ 0 → oversample fuel cls nc .exact = .error .valueError) ∧
+    (cls ≠ [] → (∀ c ∈ cls, c = -1 ∨ (0 ≤ c ∧ c < (countsLen nc : Int))) → ((∃ c ∈ cls, c ≠ -1) ∨ nc ≠ 0) →
+      oversample fuel cls nc .other = .error .notImplemented) :=
+  c03x_oversample_rejects fuel cls nc mode
+
+example : oversample 9 [-1, -1] 3 .exact = .error .valueError ∧ oversample 9 [-1, -1] 0 .multiply = .error .runtime ∧
+    oversample 9 [0, 5] 3 .exact = .error .assertion ∧ oversample 9 [] 3 .multiply = .error .index := by decide
+
+/-- **mode "multiply" accepts** exactly the non-empty datasets whose labels are `-1` or in `[0, countsLen n_classes)`
+    with `n_classes ≠ 0` (a dataset of unlabeled samples only is accepted and returned unchanged);
+    `oversampleMultiply_spec` then describes the selection: every sample — labeled or not — is kept once as the
+    prefix `0..n-1`, only labeled samples are duplicated -/
+theorem oversampleMultiply_accepts (fuel : Nat) (cls : List Int) (nc : Nat) :
+    (∃ res, oversample fuel cls nc .multiply = .ok res) ↔
+      cls ≠ [] ∧ (∀ c ∈ cls, c = -1 ∨ (0 ≤ c ∧ c < (countsLen nc : Int))) ∧ nc ≠ 0 := by
+  constructor
+  · rintro ⟨res, h⟩
+    have hr := c03x_oversample_rejects fuel cls nc .multiply
+    have hne : cls ≠ [] := by
+      intro h0; rw [hr.1 h0] at h; cases h
+    have hdom : ∀ c ∈ cls, c = -1 ∨ (0 ≤ c ∧ c < (countsLen nc : Int)) := by
+      intro c hc
+      by_cases h1 : c = -1
+      · exact Or.inl h1
+      · by_cases h2 : 0 ≤ c ∧ c < (countsLen nc : Int)
+        · exact Or.inr h2
+        · rw [hr.2.1 hne ⟨c, hc, h1, h2⟩] at h; cases h
+    refine ⟨hne, hdom, ?_⟩
+    intro hnc
+    have hall : ∀ c ∈ cls, c = -1 := by
+      intro c hc
+      rcases hdom c hc with h1 | ⟨h1, h2⟩
+      · exact h1
+      · rw [(c03x_countsLen_eq_zero nc).2 hnc] at h2; omega
+    rw [hr.2.2.1 hne hall hnc] at h; cases h
+  · rintro ⟨hne, hdom, hnc⟩
+    have hc := classCounts_of_dom cls nc hdom
+    have hlen0 : cls.length ≠ 0 := fun h0 => hne (List.eq_nil_of_length_eq_zero h0)
+    have hl : countsLen nc ≠ 0 := fun h => hnc ((c03x_countsLen_eq_zero nc).1 h)
+    unfold oversample
+    rw [if_neg hlen0, hc]
+    simp [hl]
+
+example : oversample 0 [-1, -1, -1] 2 .multiply = .ok [0, 1, 2] := by decide
+
+/-- acceptance of mode "exact" (fuel ≥ dataset size): exactly the non-empty datasets with all labels `-1` or in
+    `[0, countsLen n_classes)` and at least one labeled sample -/
+theorem oversampleExact_accepts_iff (fuel : Nat) (cls : List Int) (nc : Nat) (hfuel : cls.length ≤ fuel) :
+    (∃ res, oversample fuel cls nc .exact = .ok res) ↔
+      (∀ c ∈ cls, c = -1 ∨ (0 ≤ c ∧ c < (countsLen nc : Int))) ∧ ∃ c ∈ cls, c ≠ -1 := by
+  constructor
+  · rintro ⟨res, h⟩
+    have hr := c03x_oversample_rejects fuel cls nc .exact
+    have hne : cls ≠ [] := by
+      intro h0; rw [hr.1 h0] at h; cases h
+    have hdom : ∀ c ∈ cls, c = -1 ∨ (0 ≤ c ∧ c < (countsLen nc : Int)) := by
+      intro c hc
+      by_cases h1 : c = -1
+      · exact Or.inl h1
+      · by_cases h2 : 0 ≤ c ∧ c < (countsLen nc : Int)
+        · exact Or.inr h2
+        · rw [hr.2.1 hne ⟨c, hc, h1, h2⟩] at h; cases h
+    refine ⟨hdom, ?_⟩
+    apply Classical.byContradiction
+    intro hno
+    have hall : ∀ c ∈ cls, c = -1 := by
+      intro c hc
+      apply Classical.byContradiction
+      intro hcn
+      exact hno ⟨c, hc, hcn⟩
+    by_cases hnc : nc = 0
+    · rw [hr.2.2.1 hne hall hnc] at h; cases h
+    · rw [hr.2.2.2.1 hne hall hnc] at h; cases h
+  · rintro ⟨hdom, hlab⟩
+    obtain ⟨res, _, h, _⟩ := oversampleExact_unlabeled_spec fuel cls nc hdom hlab hfuel
+    exact ⟨res, h⟩
+
+/-! ## sort by class / intra-class shuffle without the label-domain hypothesis -/
+
+/-- **sort-by-class for arbitrary labels** (incl. unlabeled `-1` and labels `≥ n_classes`): the constructor never
+    rejects; the selection has no repeated sample and contains exactly the samples whose label lies in
+    `[0, n_classes)` — **unlabeled and out-of-range samples are silently dropped** (`for i in range(num_classes)` never
+    visits them) — in the order of `sortByClass_sorted_stable`. Hence it is a permutation of the dataset iff every
+    label lies in `[0, n_classes)`. -/
+theorem sortByClass_any_labels (cls : List Int) (nc : Nat) :
+    (sortByClass cls nc).Nodup ∧
+    (∀ i, i ∈ sortByClass cls nc ↔ ∃ c, cls[i]? = some c ∧ 0 ≤ c ∧ c < (nc : Int)) ∧
+    ((sortByClass cls nc).Perm (List.range cls.length) ↔ ∀ c ∈ cls, 0 ≤ c ∧ c < (nc : Int)) := by
+  have hmem : ∀ i, i ∈ sortByClass cls nc ↔ ∃ c, cls[i]? = some c ∧ 0 ≤ c ∧ c < (nc : Int) := by
+    intro i
+    unfold sortByClass
+    rw [List.mem_flatMap]
+    constructor
+    · rintro ⟨a, ha, hx⟩
+      have := List.mem_range.1 ha
+      exact ⟨(a : Int), (mem_whereEq cls a i).1 hx, by omega, by omega⟩
+    · rintro ⟨c, hc, h0, h1⟩
+      refine ⟨c.toNat, List.mem_range.2 (by omega), ?_⟩
+      rw [mem_whereEq, Int.toNat_of_nonneg h0]
+      exact hc
+  refine ⟨nodup_blocks cls _ nc (fun a x hx => (mem_whereEq cls a x).1 hx) (fun a _ => whereEq_nodup cls a), hmem, ?_⟩
+  constructor
+  · intro hperm c hc
+    obtain ⟨i, hi, hget⟩ := List.mem_iff_getElem.1 hc
+    have : i ∈ sortByClass cls nc := (hperm.mem_iff).2 (List.mem_range.2 hi)
+    obtain ⟨c', hc', h0, h1⟩ := (hmem i).1 this
+    rw [List.getElem?_eq_getElem hi, hget] at hc'
+    injection hc' with hc'
+    subst hc'
+    exact ⟨h0, h1⟩
+  · exact sortByClass_perm cls nc
+
+/-- two unlabeled samples and one label ≥ n_classes are dropped -/
+example : sortByClass [2, -1, 0, 7, 2, -1, 0] 3 = [2, 6, 0, 4] := by decide
+
+/-- **intra-class shuffle without a seed** (`seed=None`): `rng = GlobalRng` is the class object, which has no
+    `permutation`, so the constructor raises `AttributeError` for every dataset with `n_classes > 0` (defect of the
+    code, nothing is selected); for `n_classes = 0` the permutation loop is empty and the composing loop fails with
+    `IndexError` on the first sample (an empty dataset gives the empty selection). The property's promise therefore
+    holds for `IntraClassShuffleWrapper` only when a seed is given (`intraClassShuffle_perm_keeps_class_seq`). -/
+theorem intraClassShuffle_unseeded (cls : List Int) (nc : Nat) (tape : List (List Nat)) :
+    intraClassShuffle cls nc false tape =
+      if nc = 0 then (if cls = [] then .ok [] else .error .index) else .error .attribute := by
+  unfold intraClassShuffle
+  simp only [Bool.not_false, if_true]
+  by_cases hnc : nc = 0
+  · rw [if_pos hnc, if_pos hnc]
+    cases cls with
+    | nil => rfl
+    | cons c rest => simp [icsGo, c03x_pyGet_nil]
+  · rw [if_neg hnc, if_neg hnc]
+
+example : intraClassShuffle [1, 0, 1] 2 false [] = .error .attribute := by decide
+
+/-- **intra-class shuffle with a seed, arbitrary labels** (one draw per class on the tape, no hypothesis on the
+    labels or on the draws): the constructor either raises `IndexError` or accepts; if it accepts, the selection
+    has one entry per sample, every label lies in `[-n_classes, n_classes)`, and the entry at a position of label `c`
+    is a sample of class `c` if `c ≥ 0` but of class `n_classes + c` if `c < 0` — Python's negative indexing of
+    `cls_to_perm[c]`: an **unlabeled sample (`-1`) is replaced by a sample of the last class**. Consequently a label
+    `≥ n_classes` or `< -n_classes` always raises, and the class sequence is kept only if no label is negative. -/
+theorem intraClassShuffle_seeded_any_labels (cls : List Int) (nc : Nat) (tape : List (List Nat))
+    (hlen : tape.length = nc) :
+    intraClassShuffle cls nc true tape = .error .index ∨
+    ∃ res, intraClassShuffle cls nc true tape = .ok res ∧ res.length = cls.length ∧
+      (∀ c ∈ cls, -(nc : Int) ≤ c ∧ c < (nc : Int)) ∧
+      (∀ (j : Nat) (c : Int), cls[j]? = some c → ∃ v : Nat, res[j]? = some v ∧ cls[v]? = some (if 0 ≤ c then c else (nc : Int) + c)) ∧
+      (res.map (fun i => cls[i]?) = cls.map some → ∀ c ∈ cls, 0 ≤ c ∧ c < (nc : Int)) := by
+  have hdef : intraClassShuffle cls nc true tape = icsGo (clsToPerm cls nc tape) (fun _ => 0) cls := by
+    unfold intraClassShuffle
+    simp [hlen]
+  rw [hdef]
+  cases hgo : icsGo (clsToPerm cls nc tape) (fun _ => 0) cls with
+  | error e => left; rw [c03x_icsGo_error _ _ _ _ hgo]
+  | ok res =>
+    right
+    obtain ⟨hl, hget⟩ := c03x_icsGo_ok _ _ _ _ hgo
+    have hentry : ∀ (j : Nat) (c : Int), cls[j]? = some c →
+        (-(nc : Int) ≤ c ∧ c < (nc : Int)) ∧
+        ∃ v : Nat, res[j]? = some v ∧ cls[v]? = some (if 0 ≤ c then c else (nc : Int) + c) := by
+      intro j c hj
+      obtain ⟨p, v, hp, hv, hr⟩ := hget j c hj
+      obtain ⟨h1, h2, h3⟩ := c03x_pyGet_clsToPerm cls nc tape c p hp
+      exact ⟨⟨h1, h2⟩, v, hr, h3 v (List.mem_of_getElem? hv)⟩
+    have hdomw : ∀ c ∈ cls, -(nc : Int) ≤ c ∧ c < (nc : Int) := by
+      intro c hc
+      obtain ⟨j, hj, hjc⟩ := List.mem_iff_getElem.1 hc
+      exact (hentry j c (by rw [List.getElem?_eq_getElem hj, hjc])).1
+    refine ⟨res, rfl, hl, hdomw, fun j c hj => (hentry j c hj).2, ?_⟩
+    intro hseq c hc
+    obtain ⟨j, hj, hjc⟩ := List.mem_iff_getElem.1 hc
+    have hjc' : cls[j]? = some c := by rw [List.getElem?_eq_getElem hj, hjc]
+    obtain ⟨⟨h1, h2⟩, v, hv, hcv⟩ := hentry j c hjc'
+    have := congrArg (fun l => l[j]?) hseq
+    simp only [List.getElem?_map, hv, hjc', Option.map_some] at this
+    rw [hcv] at this
+    simp only [Option.some.injEq] at this
+    by_cases h0 : 0 ≤ c
+    · exact ⟨h0, h2⟩
+    · rw [if_neg h0] at this
+      omega
+
+/-- the unlabeled sample at position 2 is replaced by a sample of the last class (class 1): sample 3 appears twice,
+    sample 2 is lost; with two unlabeled samples but one sample in the last class the constructor raises -/
+example : intraClassShuffle [1, 0, -1, 1, 0] 2 true [[1, 0], [1, 0]] = .ok [3, 4, 3, 0, 1] ∧
+    intraClassShuffle [0, -1, -1, 1] 2 true [[0], [0]] = .error .index ∧
+    intraClassShuffle [0, 2] 2 true [[0], []] = .error .index := by decide
+
+/-- **intra-class shuffle keeps its promise iff the labels lie in `[0, n_classes)`**: for every tape satisfying the
+    generator contract, the seeded constructor accepts with a permutation of the dataset that keeps the class seen
+    at every position if and only if every label lies in `[0, n_classes)` -/
+theorem intraClassShuffle_promise_iff (cls : List Int) (nc : Nat) (tape : List (List Nat)) (hlen : tape.length = nc)
+    (htape : ∀ i, i < nc → (tape.getD i []).Perm (List.range (cls.count (i : Int)))) :
+    (∃ res, intraClassShuffle cls nc true tape = .ok res ∧ res.Perm (List.range cls.length) ∧
+      res.map (fun i => cls[i]?) = cls.map some) ↔ ∀ c ∈ cls, 0 ≤ c ∧ c < (nc : Int) := by
+  constructor
+  · rintro ⟨res, hok, _, hseq⟩
+    rcases intraClassShuffle_seeded_any_labels cls nc tape hlen with herr | ⟨res', hok', _, _, _, himp⟩
+    · rw [herr] at hok; cases hok
+    · rw [hok'] at hok
+      injection hok with hok
+      subst hok
+      exact himp hseq
+  · intro hdom
+    exact intraClassShuffle_perm_keeps_class_seq cls nc tape hdom hlen htape
+
+/-! ## few-shot: acceptance, any `num_shots`, any labels -/
+
+/-- **acceptance of `FewshotWrapper`**: an empty dataset raises `ValueError` (`np.max` of an empty array); every
+    non-empty dataset is accepted (given one draw per class `< max+1` on the tape — the driver's input contract) -/
+theorem fewshot_accepts_iff (cls : List Int) (shots : Int) (tape : List (List Nat))
+    (hlen : tape.length = fewshotNumClasses cls) :
+    ((∃ res, fewshot cls shots tape = .ok res) ↔ cls ≠ []) ∧ (cls = [] → fewshot cls shots tape = .error .valueError) := by
+  constructor
+  · constructor
+    · rintro ⟨res, h⟩ h0
+      subst h0
+      simp [fewshot] at h
+    · intro hne
+      have hlen0 : cls.length ≠ 0 := fun h0 => hne (List.eq_nil_of_length_eq_zero h0)
+      unfold fewshot
+      simp only [hlen0, if_false, hlen, ne_eq, not_true_eq_false]
+      exact ⟨_, rfl⟩
+  · intro h0; subst h0; rfl
+
+/-- **few-shot for every integer `num_shots` and arbitrary labels** (incl. unlabeled `-1`), every tape of per-class
+    permutations, every non-empty dataset: the constructor accepts; the selection has no repeated sample, lists the
+    classes in non-decreasing order, contains only samples with a label `≥ 0` (unlabeled samples are never selected)
+    and of every class `c ≥ 0` exactly `min(shots, count c)` samples if `shots ≥ 0`, resp. `count c - |shots|`
+    (truncated at 0) if `shots < 0` — Python's `perm[:num_shots]` with a negative bound drops the last `|shots|`
+    entries. -/
+theorem fewshot_any_shots_spec (cls : List Int) (shots : Int) (tape : List (List Nat)) (hne : cls ≠ [])
+    (hlen : tape.length = fewshotNumClasses cls)
+    (htape : ∀ i, i < fewshotNumClasses cls → (tape.getD i []).Perm (List.range (cls.count (i : Int)))) :
+    ∃ res, fewshot cls shots tape = .ok res ∧ res.Nodup ∧
+      res.Pairwise (fun i j => ∃ a b, cls[i]? = some a ∧ cls[j]? = some b ∧ a ≤ b) ∧
+      (∀ i ∈ res, ∃ c : Nat, cls[i]? = some (c : Int)) ∧
+      ∀ c : Nat, res.countP (fun i => cls[i]? == some (c : Int)) =
+        if 0 ≤ shots then min shots.toNat (cls.count (c : Int)) else cls.count (c : Int) - (-shots).toNat := by
+  have hlen0 : cls.length ≠ 0 := by
+    intro h0; exact hne (List.eq_nil_of_length_eq_zero h0)
+  have hslice : ∀ t : List Nat, pySliceTo t shots =
+      t.take (if 0 ≤ shots then shots.toNat else t.length - (-shots).toNat) := by
+    intro t; unfold pySliceTo; split <;> rfl
+  have hg : ∀ a : Nat, ∀ x ∈ gather (whereEq cls (a : Int)) (pySliceTo (tape.getD a []) shots),
+      cls[x]? = some (a : Int) := by
+    intro a x hx
+    exact (mem_whereEq cls a x).1 (mem_gather _ _ _ hx)
+  refine ⟨(List.range (fewshotNumClasses cls)).flatMap (fun (i : Nat) =>
+      gather (whereEq cls (i : Int)) (pySliceTo (tape.getD i []) shots)), ?_, ?_, ?_, ?_, ?_⟩
+  · unfold fewshot
+    simp only [hlen0, if_false, hlen, ne_eq, not_true_eq_false]
+  · apply nodup_blocks cls _ _ hg
+    intro a ha
+    have hp := gather_perm (whereEq cls (a : Int)) (tape.getD a [])
+      (by rw [length_whereEq]; exact htape a ha)
+    have hnd : (gather (whereEq cls (a : Int)) (tape.getD a [])).Nodup :=
+      (hp.nodup_iff).2 (whereEq_nodup cls a)
+    refine List.Nodup.sublist (gather_sublist _ ?_) hnd
+    rw [hslice]; exact List.take_sublist _ _
+  · apply pairwise_blocks
+    · intro a _
+      apply List.pairwise_of_forall_mem_list
+      intro x hx y hy
+      exact ⟨a, a, hg a x hx, hg a y hy, Int.le_refl _⟩
+    · intro a b hab _ x hx y hy
+      exact ⟨a, b, hg a x hx, hg b y hy, by omega⟩
+  · intro i hi
+    rw [List.mem_flatMap] at hi
+    obtain ⟨a, _, hx⟩ := hi
+    exact ⟨a, hg a i hx⟩
+  · intro c
+    rw [List.countP_eq_length_filter, filter_blocks cls _ hg c _ List.nodup_range]
+    by_cases hc : c < fewshotNumClasses cls
+    · rw [if_pos (List.mem_range.2 hc), hslice]
+      have hp := htape c hc
+      have hlt : ∀ j ∈ (tape.getD c []).take (if 0 ≤ shots then shots.toNat else (tape.getD c []).length - (-shots).toNat),
+          j < (whereEq cls (c : Int)).length := by
+        intro j hj
+        have := (hp.mem_iff).1 (List.mem_of_mem_take hj)
+        rw [length_whereEq]; exact List.mem_range.1 this
+      rw [length_gather _ _ hlt, List.length_take, hp.length_eq, List.length_range]
+      split <;> omega
+    · rw [if_neg (by rw [List.mem_range]; exact hc)]
+      have : cls.count (c : Int) = 0 := by
+        rw [List.count_eq_zero]
+        intro hm; exact hc (lt_fewshotNumClasses cls c hm)
+      rw [this]; simp
+
+/-- `num_shots = -1` drops one sample per class; the unlabeled sample (position 2) is never selected -/
+example : fewshot [1, 0, -1, 1, 1, 3] (-1) [[0], [2, 0, 1], [], [0]] = .ok [4, 0] ∧
+    fewshot [1, 0, -1, 1, 1, 3] 2 [[0], [2, 0, 1], [], [0]] = .ok [1, 4, 0, 5] := by decide
+example : ∀ i, i < fewshotNumClasses [1, 0, -1, 1, 1, 3] →
+    (([[0], [2, 0, 1], [], [0]] : List (List Nat)).getD i []).Perm
+      (List.range (([1, 0, -1, 1, 1, 3] : List Int).count (i : Int))) := by decide
+
+/-! ## class-wise subset: acceptance, exact rounding -/
+
+/-- **acceptance of `ClasswiseSubsetWrapper(start_index=, end_index=)`** (at least one index bound, no percent
+    bound): the constructor accepts iff (1) every label is `-1` or lies in `[0, countsLen n_classes)`
+    (`get_class_counts`' assert), (2) `start ≤ min(end, n)` (`None` ↦ 0 resp. `n`) and (3) with
+    `check_enough_samples` every class `< n_classes` has at least `min(end, n)` samples; otherwise it raises the
+    `AssertionError`. `classwiseSubset_index_spec` describes the accepted selection. -/
+theorem classwiseSubset_index_accepts_iff (cutT : Rat → Nat → Nat) (cls : List Int) (nc : Nat) (si ei : Option Nat)
+    (check : Bool) (hgiven : (si.isSome || ei.isSome) = true) :
+    (((∀ c ∈ cls, c = -1 ∨ (0 ≤ c ∧ c < (countsLen nc : Int))) ∧
+        si.getD 0 ≤ min (ei.getD cls.length) cls.length ∧
+        (check = true → ∀ c : Nat, c < nc → min (ei.getD cls.length) cls.length ≤ cls.count (c : Int))) →
+      ∃ res, classwiseSubset cutT cls nc si ei none none check = .ok res) ∧
+    (¬ ((∀ c ∈ cls, c = -1 ∨ (0 ≤ c ∧ c < (countsLen nc : Int))) ∧
+        si.getD 0 ≤ min (ei.getD cls.length) cls.length ∧
+        (check = true → ∀ c : Nat, c < nc → min (ei.getD cls.length) cls.length ≤ cls.count (c : Int))) →
+      classwiseSubset cutT cls nc si ei none none check = .error .assertion) :=
+  ⟨fun h => c03x_classwise_index_accepts cutT cls nc si ei check hgiven h.1 h.2.1 h.2.2,
+   c03x_classwise_index_rejects cutT cls nc si ei check hgiven⟩
+
+/-- three samples per class requested, class 1 has two: rejected with the check, accepted (2 samples of class 1)
+    without; the unlabeled sample (position 3) is in no class block -/
+example : classwiseSubset exactCutF [0, 1, 0, -1, 0, 1] 2 none (some 3) none none true = .error .assertion ∧
+    classwiseSubset exactCutF [0, 1, 0, -1, 0, 1] 2 none (some 3) none none false = .ok [0, 2, 4, 1, 5] ∧
+    classwiseSubset exactCutF [0, 1, 0, 4, 0, 1] 2 none (some 1) none none false = .error .assertion := by decide +kernel
+
+/-- **acceptance of `ClasswiseSubsetWrapper(start_percent=, end_percent=)`** (at least one percent bound, no index
+    bound; any rounding function): the constructor accepts iff every label is `-1` or lies in
+    `[0, countsLen n_classes)`, both given bounds lie in `[0,1]` and `start ≤ end` (`None` ↦ 0 resp. 1); otherwise it
+    raises the `AssertionError` (`check_enough_samples` plays no role in percent mode) -/
+theorem classwiseSubset_percent_accepts_iff (cutT : Rat → Nat → Nat) (cls : List Int) (nc : Nat) (sp ep : Option Rat)
+    (check : Bool) (hgiven : (sp.isSome || ep.isSome) = true) :
+    (((∀ c ∈ cls, c = -1 ∨ (0 ≤ c ∧ c < (countsLen nc : Int))) ∧
+        (∀ p, sp = some p → 0 ≤ p ∧ p ≤ 1) ∧ (∀ p, ep = some p → 0 ≤ p ∧ p ≤ 1) ∧ sp.getD 0 ≤ ep.getD 1) →
+      ∃ res, classwiseSubset cutT cls nc none none sp ep check = .ok res) ∧
+    (¬ ((∀ c ∈ cls, c = -1 ∨ (0 ≤ c ∧ c < (countsLen nc : Int))) ∧
+        (∀ p, sp = some p → 0 ≤ p ∧ p ≤ 1) ∧ (∀ p, ep = some p → 0 ≤ p ∧ p ≤ 1) ∧ sp.getD 0 ≤ ep.getD 1) →
+      classwiseSubset cutT cls nc none none sp ep check = .error .assertion) :=
+  ⟨fun h => ⟨_, c03x_classwise_percent_accepts cutT cls nc sp ep check hgiven h.1 h.2.1 h.2.2.1 h.2.2.2⟩,
+   c03x_classwise_percent_rejects cutT cls nc sp ep check hgiven⟩
+
+/-- **class-wise subset by percent, real rounding rule** (`int(p * counts[i])` = `⌊p·count⌋`, percentages exact
+    rationals; NOTE the real code computes the product in float32): for every class layout with labels `-1` or in
+    `[0, countsLen n_classes)`, all bounds in `[0,1] ∩ ℚ` with `start ≤ end` — exactly the accepted inputs — the
+    selection lists the classes in order with original order inside a class, contains only samples with a label in
+    `[0, n_classes)` (unlabeled samples are dropped), and the entries of every class `c < n_classes` with `k` samples
+    are exactly the samples number `a … b-1` of that class, `a = ⌊start·k⌋ ≤ b = ⌊end·k⌋ ≤ k`: `b - a` of them. -/
+theorem classwiseSubset_exact_percent_spec (cls : List Int) (nc : Nat) (sp ep : Option Rat) (check : Bool)
+    (hgiven : (sp.isSome || ep.isSome) = true)
+    (hdom : ∀ c ∈ cls, c = -1 ∨ (0 ≤ c ∧ c < (countsLen nc : Int)))
+    (hs : ∀ p, sp = some p → 0 ≤ p ∧ p ≤ 1) (he : ∀ p, ep = some p → 0 ≤ p ∧ p ≤ 1) (hle : sp.getD 0 ≤ ep.getD 1) :
+    ∃ res, classwiseSubset exactCutF cls nc none none sp ep check = .ok res ∧
+      res.Pairwise (fun i j => ∃ a b, cls[i]? = some a ∧ cls[j]? = some b ∧ (a < b ∨ (a = b ∧ i < j))) ∧
+      (∀ i ∈ res, ∃ c : Nat, c < nc ∧ cls[i]? = some (c : Int)) ∧
+      ∀ c : Nat, c < nc → ∃ a b, a = exactCutF (sp.getD 0) (cls.count (c : Int)) ∧
+        b = exactCutF (ep.getD 1) (cls.count (c : Int)) ∧ a ≤ b ∧ b ≤ cls.count (c : Int) ∧
+        res.filter (fun i => cls[i]? == some (c : Int)) = ((whereEq cls (c : Int)).take b).drop a ∧
+        res.countP (fun i => cls[i]? == some (c : Int)) = b - a := by
+  have hok := c03x_classwise_percent_accepts exactCutF cls nc sp ep check hgiven hdom hs he hle
+  obtain ⟨_, hsorted, hfil⟩ := classwiseSubset_percent_spec exactCutF cls nc sp ep check _ hgiven hok
+  have hep1 : ep.getD 1 ≤ 1 := by
+    cases ep with
+    | none => exact Rat.le_refl
+    | some v => exact (he v rfl).2
+  refine ⟨_, hok, hsorted, ?_, ?_⟩
+  · intro i hi
+    rw [List.mem_flatMap] at hi
+    obtain ⟨a, ha, hx⟩ := hi
+    exact ⟨a, List.mem_range.1 ha, (mem_whereEq cls a i).1 ((pySlice_sublist _ _ _).subset hx)⟩
+  · intro c hc
+    have hb : exactCutF (ep.getD 1) (cls.count (c : Int)) ≤ cls.count (c : Int) := c03x_cutF_le_n _ _ hep1
+    refine ⟨_, _, rfl, rfl, c03x_cutF_mono _ _ _ hle, hb, hfil c hc, ?_⟩
+    rw [List.countP_eq_length_filter, hfil c hc, List.length_drop, List.length_take, length_whereEq,
+      Nat.min_eq_left hb]
+
+/-- class 0 has 5 samples, class 1 has 3; `[1/3, 5/6]`: class 0 keeps its samples number ⌊5/3⌋ = 1 … ⌊25/6⌋-1 = 3,
+    class 1 its samples number ⌊1⌋ = 1 … ⌊5/2⌋-1 = 1; the unlabeled sample (position 2) is dropped -/
+example : classwiseSubset exactCutF [0, 1, -1, 0, 0, 1, 0, 1, 0] 2 none none (some (1/3)) (some (5/6)) true
+    = .ok [3, 4, 6, 5] := by decide +kernel
+
+/-- **class-wise complementary percent ranges partition every class — real rounding rule, acceptance included**: for
+    every class layout with labels `-1` or in `[0, countsLen n_classes)` and every `p ∈ [0,1] ∩ ℚ` (incl. 0, 1 and
+    values with `p·count` not an integer) both halves are accepted and give, class by class (`c < n_classes`),
+    all samples of the class in original order; the split point inside class `c` is `⌊p·count c⌋` -/
+theorem classwiseSubset_exact_percent_partition (cls : List Int) (nc : Nat) (p : Rat) (sa eb : Option Rat)
+    (check check' : Bool) (hdom : ∀ c ∈ cls, c = -1 ∨ (0 ≤ c ∧ c < (countsLen nc : Int)))
+    (hp0 : 0 ≤ p) (hp1 : p ≤ 1) (hsa : sa = none ∨ sa = some 0) (heb : eb = none ∨ eb = some 1) :
+    ∃ A B, classwiseSubset exactCutF cls nc none none sa (some p) check = .ok A ∧
+      classwiseSubset exactCutF cls nc none none (some p) eb check' = .ok B ∧
+      ∀ c : Nat, c < nc → A.filter (fun i => cls[i]? == some (c : Int)) ++ B.filter (fun i => cls[i]? == some (c : Int))
+        = whereEq cls (c : Int) := by
+  have h01 : (0 : Rat) ≤ 1 := by decide
+  have hsa0 : sa.getD 0 = 0 := by rcases hsa with h | h <;> simp [h]
+  have heb1 : eb.getD 1 = 1 := by rcases heb with h | h <;> simp [h]
+  have hsaok : ∀ q, sa = some q → 0 ≤ q ∧ q ≤ 1 := by
+    intro q hq
+    rcases hsa with h | h
+    · rw [h] at hq; cases hq
+    · rw [h] at hq; injection hq with hq; subst hq; exact ⟨Rat.le_refl, h01⟩
+  have hebok : ∀ q, eb = some q → 0 ≤ q ∧ q ≤ 1 := by
+    intro q hq
+    rcases heb with h | h
+    · rw [h] at hq; cases hq
+    · rw [h] at hq; injection hq with hq; subst hq; exact ⟨h01, Rat.le_refl⟩
+  have hpok : ∀ q, some p = some q → 0 ≤ q ∧ q ≤ 1 := by
+    intro q hq; injection hq with hq; subst hq; exact ⟨hp0, hp1⟩
+  obtain ⟨A, hA, _, _, fA⟩ := classwiseSubset_exact_percent_spec cls nc sa (some p) check (by simp) hdom hsaok hpok
+    (by rw [hsa0]; exact hp0)
+  obtain ⟨B, hB, _, _, fB⟩ := classwiseSubset_exact_percent_spec cls nc (some p) eb check' (by simp) hdom hpok hebok
+    (by rw [heb1]; exact hp1)
+  refine ⟨A, B, hA, hB, ?_⟩
+  intro c hc
+  obtain ⟨a, b, ha, hb, _, _, hfA, _⟩ := fA c hc
+  obtain ⟨a', b', ha', hb', _, _, hfB, _⟩ := fB c hc
+  have hW : (whereEq cls (c : Int)).take (cls.count (c : Int)) = whereEq cls (c : Int) :=
+    List.take_of_length_le (by rw [length_whereEq]; exact Nat.le_refl _)
+  rw [hfA, hfB, ha, hb, ha', hb', hsa0, heb1]
+  simp only [Option.getD_some]
+  rw [c03x_cutF_zero, c03x_cutF_one, List.drop_zero, hW]
+  exact List.take_append_drop _ _
+
+example : classwiseSubset exactCutF [0, 1, -1, 0, 0, 1, 0, 1, 0] 2 none none none (some (1/3)) true = .ok [0, 1] ∧
+    classwiseSubset exactCutF [0, 1, -1, 0, 0, 1, 0, 1, 0] 2 none none (some (1/3)) none true = .ok [3, 4, 6, 8, 5, 7] := by
+  decide +kernel
+
+/-! ## "the selection is a function of the constructor arguments and seed only" -/
+
+/-- **the selection is a function of (class layout, constructor arguments, tape)** — the level at which the model can
+    state the clause. Every wrapper of the model is a *pure* function whose only inputs are the class list `cls`
+    (resp. the size `n`), the constructor arguments and, for the three seeded wrappers only, the tape of generator
+    draws; so two runs with equal layout, equal arguments and equal tape select the same samples in the same order
+    (and fail in the same way). In Lean this holds by construction (`congr`); its content is the *signature*: no
+    wrapper reads anything else (no sample data, no global state, no call history), the seven unseeded wrappers take
+    no tape at all, and the differential harness checks the real constructors against exactly these functions.
+    The remaining link "seed ↦ tape" is not modelled; it is named as the contract `SeedContract` ("tape = f(seed)"),
+    see `seeded_selection_is_function_of_seed`. -/
+theorem selection_is_function_of_layout_arguments_tape :
+    (∀ cls cls' v v' iv iv', cls = cls' → v = v' → iv = iv' → classFilter cls v iv = classFilter cls' v' iv') ∧
+    (∀ cutF cutC n n' fp fp' tp tp' cf cf' ct ct', n = n' → fp = fp' → tp = tp' → cf = cf' → ct = ct' →
+      percentFilter cutF cutC n fp tp cf ct = percentFilter cutF cutC n' fp' tp' cf' ct') ∧
+    (∀ cutF n n' si si' ei ei' sp sp' ep ep', n = n' → si = si' → ei = ei' → sp = sp' → ep = ep' →
+      subsetRange cutF n si ei sp ep = subsetRange cutF n' si' ei' sp' ep') ∧
+    (∀ n n' idx idx' o o', n = n' → idx = idx' → o = o' → subsetExplicit n idx o = subsetExplicit n' idx' o') ∧
+    (∀ n n' r r' m m', n = n' → r = r' → m = m' → repeatW n r m = repeatW n' r' m') ∧
+    (∀ fuel cls cls' nc nc' mode mode', cls = cls' → nc = nc' → mode = mode' →
+      oversample fuel cls nc mode = oversample fuel cls' nc' mode') ∧
+    (∀ cls cls' nc nc', cls = cls' → nc = nc' → sortByClass cls nc = sortByClass cls' nc') ∧
+    (∀ cutT cls cls' nc nc' si si' ei ei' sp sp' ep ep' ck ck', cls = cls' → nc = nc' → si = si' → ei = ei' →
+      sp = sp' → ep = ep' → ck = ck' →
+      classwiseSubset cutT cls nc si ei sp ep ck = classwiseSubset cutT cls' nc' si' ei' sp' ep' ck') ∧
+    (∀ n n' tape tape', n = n' → tape = tape' → shuffle n tape = shuffle n' tape') ∧
+    (∀ cls cls' shots shots' tape tape', cls = cls' → shots = shots' → tape = tape' →
+      fewshot cls shots tape = fewshot cls' shots' tape') ∧
+    (∀ cls cls' nc nc' sg sg' tape tape', cls = cls' → nc = nc' → sg = sg' → tape = tape' →
+      intraClassShuffle cls nc sg tape = intraClassShuffle cls' nc' sg' tape') := by
+  refine ⟨?_, ?_, ?_, ?_, ?_, ?_, ?_, ?_, ?_, ?_, ?_⟩ <;> (intros; subst_vars; rfl)
+
+/-- the sequence of requests a seeded wrapper sends to the generator (how many permutations, over how many
+    positions) is itself a function of the class layout and the arguments only — this is what makes
+    "tape = f(seed)" well defined: few-shot asks for one permutation per class `< max+1` over that class' samples,
+    intra-class shuffle one per class `< n_classes`, shuffle a single one over `n` positions -/
+theorem seeded_requests_spec (cls : List Int) (nc : Nat) :
+    (fewshotRequests cls).length = fewshotNumClasses cls ∧
+    (∀ i, i < fewshotNumClasses cls → (fewshotRequests cls).getD i 0 = cls.count (i : Int)) ∧
+    (icsRequests cls nc).length = nc ∧
+    (∀ i, i < nc → (icsRequests cls nc).getD i 0 = cls.count (i : Int)) :=
+  ⟨c03x_fewshotRequests_length cls, c03x_fewshotRequests_getD cls, c03x_icsRequests_length cls nc,
+    c03x_icsRequests_getD cls nc⟩
+
+/-- **under the contract "tape = f(seed)" the seeded selections are functions of (layout, arguments, seed) and keep
+    their promises for every seed.** `G : SeedContract` is any deterministic generator (`G.draws seed sizes` = the
+    permutations drawn for the successive requests; hypothesis of the contract: each is a permutation of the right
+    size — `np.random.default_rng(seed)` is one such `G`). For every `G`, every seed and every class layout:
+    * equal layout, arguments and seed give equal selections (all three wrappers);
+    * `ShuffleWrapper(seed)` selects a permutation of the dataset;
+    * `FewshotWrapper(num_shots=shots ≥ 0, seed)` on a non-empty dataset is accepted and selects, without repetition,
+      exactly `min(shots, count c)` samples of every class `c`;
+    * `IntraClassShuffleWrapper(seed)` with labels in `[0, n_classes)` is accepted and selects a permutation of the
+      dataset that keeps the class at every position.
+    (`ShuffleWrapper(seed=None)` draws from the global `np.random` state, which is outside this contract: its
+    selection is a permutation — `shuffle_perm` — but not a function of the arguments.) -/
+theorem seeded_selection_is_function_of_seed (G : SeedContract) :
+    (∀ n n' seed seed', n = n' → seed = seed' → shuffleSeeded G n seed = shuffleSeeded G n' seed') ∧
+    (∀ cls cls' shots shots' seed seed', cls = cls' → shots = shots' → seed = seed' →
+      fewshotSeeded G cls shots seed = fewshotSeeded G cls' shots' seed') ∧
+    (∀ cls cls' nc nc' seed seed', cls = cls' → nc = nc' → seed = seed' →
+      intraClassShuffleSeeded G cls nc seed = intraClassShuffleSeeded G cls' nc' seed') ∧
+    (∀ n seed, (shuffleSeeded G n seed).Perm (List.range n)) ∧
+    (∀ cls (shots : Nat) seed, cls ≠ [] → ∃ res, fewshotSeeded G cls (shots : Int) seed = .ok res ∧ res.Nodup ∧
+      ∀ c : Nat, res.countP (fun i => cls[i]? == some (c : Int)) = min shots (cls.count (c : Int))) ∧
+    (∀ cls (nc : Nat) seed, (∀ c ∈ cls, 0 ≤ c ∧ c < (nc : Int)) →
+      ∃ res, intraClassShuffleSeeded G cls nc seed = .ok res ∧ res.Perm (List.range cls.length) ∧
+        res.map (fun i => cls[i]?) = cls.map some) := by
+  refine ⟨?_, ?_, ?_, ?_, ?_, ?_⟩
+  · intros; subst_vars; rfl
+  · intros; subst_vars; rfl
+  · intros; subst_vars; rfl
+  · intro n seed
+    unfold shuffleSeeded
+    apply shuffle_perm
+    have := G.perm_draws seed [n] 0 (by simp)
+    simpa using this
+  · intro cls shots seed hne
+    unfold fewshotSeeded
+    obtain ⟨res, h1, h2, _, h4⟩ := fewshot_spec cls shots (G.draws seed (fewshotRequests cls)) hne
+      (by rw [G.length_draws, c03x_fewshotRequests_length])
+      (by
+        intro i hi
+        have := G.perm_draws seed (fewshotRequests cls) i (by rw [c03x_fewshotRequests_length]; exact hi)
+        rw [c03x_fewshotRequests_getD cls i hi] at this
+        exact this)
+    exact ⟨res, h1, h2, h4⟩
+  · intro cls nc seed hdom
+    unfold intraClassShuffleSeeded
+    exact intraClassShuffle_perm_keeps_class_seq cls nc (G.draws seed (icsRequests cls nc)) hdom
+      (by rw [G.length_draws, c03x_icsRequests_length])
+      (by
+        intro i hi
+        have := G.perm_draws seed (icsRequests cls nc) i (by rw [c03x_icsRequests_length]; exact hi)
+        rw [c03x_icsRequests_getD cls nc i hi] at this
+        exact this)
+
+/-- the contract is satisfiable (the identity generator), and what the seeded selections evaluate to under it -/
+example : shuffleSeeded identityContract 4 17 = [0, 1, 2, 3] ∧
+    fewshotSeeded identityContract [1, 0, 1, 1, 3] 2 17 = .ok [1, 0, 2, 4] ∧
+    intraClassShuffleSeeded identityContract [1, 0, 1, 1, 0] 3 17 = .ok [0, 1, 2, 3, 4] := by decide
 
 end KDVerif.C03
